@@ -444,6 +444,11 @@ pub fn concretize_map(t: &str, am: &AbsMap, ascii: bool) -> MapSpec {
       })
       .collect(),
   };
+  // now and then sourcesContent is shorter than sources (only the first files carry their text)
+  let mut contents = contents;
+  if am.nnames == 1 && am.src_base >= 2 && contents.len() >= 2 {
+    contents.truncate(contents.len() - 1);
+  }
   let root = match am.root {
     0 => Some(String::new()),
     1 => Some("rt".to_string()),
@@ -594,7 +599,8 @@ pub fn leaf(cfg: GenCfg) -> BoxedStrategy<Spec> {
       4,
       (t.clone(), abs_map(cfg), 0u8..3u8, 0u8..8u8)
         .prop_map(move |(text, am, k, f)| {
-          let map = concretize_map(&text, &am, cfg.ascii);
+          let mut map = concretize_map(&text, &am, cfg.ascii);
+          let _ = &mut map;
           // now and then through the full options (no inner map): original_source / remove_original_source
           // then take part in == and hash only
           let full = match f {
@@ -643,6 +649,11 @@ pub fn sms_inner(cfg: GenCfg) -> BoxedStrategy<Spec> {
       // the outer map is written relative to no root for the inner source to be found by name
       map.root = None;
       map.sources[w] = name.clone();
+      // now and then another outer source is a look-alike of the inner one: "<dir>/<inner name>"
+      if which % 7 == 3 && map.sources.len() >= 2 {
+        let other = (w + 1) % map.sources.len();
+        map.sources[other] = format!("lib/{name}");
+      }
       // wild: now and then the outer map lists the inner source's name twice
       if cfg.wild && which % 5 == 2 && map.sources.len() >= 2 {
         let other = (w + 1) % map.sources.len();
@@ -685,7 +696,8 @@ pub fn sms_inner(cfg: GenCfg) -> BoxedStrategy<Spec> {
           *s = format!("i{s}");
         }
       }
-      let has_content = !map.contents.is_empty();
+      // (the outer sourcesContent may be shorter than sources: then the inner source has no entry)
+      let has_content = w < map.contents.len();
       if has_content {
         map.contents[w] = orig.clone();
       }
